@@ -114,3 +114,22 @@ impl Read for BadSyncReader {
 pub fn bad_codec_outside_factory<'a>(w: &'a mut impl Write) -> impl Write + 'a {
     flate2::write::GzEncoder::new(w, flate2::Compression::default())
 }
+
+// ---- R-TAINT-INDEX / R-TAINT-ALLOC: the harness names parameter `n` of these functions as input-derived
+pub fn bad_index_unbounded(table: &[u8], n: usize) -> u8 {
+    table[n]
+}
+pub fn good_index_first_checked(n: usize) -> u8 {
+    let sized_by_input = vec![7u8; n.min(16)];
+    if sized_by_input.is_empty() {
+        0
+    } else {
+        sized_by_input[0]
+    }
+}
+pub fn bad_alloc_unclamped(n: usize) -> Vec<u8> {
+    Vec::with_capacity(n)
+}
+pub fn good_alloc_clamped(n: usize) -> Vec<u8> {
+    Vec::with_capacity(n.min(1024))
+}
